@@ -58,12 +58,12 @@ func genConcOpKind(t *sim.Tape, kind int) concOp {
 			err := in.Execute(strings.NewReader(src))
 			return dump.Err(err) + " " + dump.InterpNoDSC(in)
 		}}
-	case 13: // a program that allocates 70-130 MB of strings and keeps none
-		n := 1100 + t.Choose(900)
+	case 13: // a program that allocates 70-90 MB of strings and keeps none
+		n := 1050 + t.Choose(300)
 		return concOp{"Execute(program allocating many large strings)", func() string {
 			in := postscript.NewInterpreter()
 			in.MaxOps = psSafetyBudget
-			err := in.Execute(strings.NewReader(fmt.Sprintf("%d { 65535 string pop } repeat 40 { 60000 array pop } repeat 3 { 60000 dict pop } repeat", n)))
+			err := in.Execute(strings.NewReader(fmt.Sprintf("%d { 65535 string pop } repeat 5 { 60000 array pop } repeat 2 { 60000 dict pop } repeat", n)))
 			return dump.Err(err) + " " + dump.InterpNoDSC(in)
 		}}
 	case 12: // the PFB decoder
